@@ -5,6 +5,7 @@
      bfe_bufio.Writer (512-byte buffer between response and chunkWriter): Write / Flush
      bfe_http/header.go          Header.WriteSubset (sorted keys, value sanitising), HasToken
      bfe_http/transfer.go        response side of readTransfer (what the proxy sees of a backend reply)
+   (the request-body related steps of writeHeader are parameters here; they are exercised by C28, KeepAlive.v)
    after the /repo fix "response.bodyAllowed is status based (1xx, 204, 304), writeHeader never chunks such a response".
    and a strict reference response parser.  Bytes are Z in [0,256).  Definitions only. *)
 From Coq Require Import String Ascii.
@@ -134,17 +135,40 @@ Definition body_allowed_old (st : Z) : bool := negb (st =? 304).
 
 (* ---------- chunkWriter.writeHeader ---------- *)
 Definition fixed_date : bytes := Eval compute in bs "Thu, 01 Jan 1970 00:00:00 GMT".
-Record hdec := { d_head : bytes;      (* status line, header lines, blank line *)
-                 d_chunking : bool;   (* cw.chunking *)
-                 d_close : bool;      (* w.closeAfterReply after writeHeader *)
-                 d_clen : Z;          (* w.contentLength after writeHeader *)
-                 d_drain : bool }.    (* the post-handler drain of the request body was attempted *)
+Record hdec := { d_fields : fields;    (* cw.header as written by WriteSubset (after the deletions) *)
+                 d_extra : fields;     (* extraHeader: Date, Content-Length, Content-Type, Connection, Transfer-Encoding *)
+                 d_head : bytes;       (* status line, header lines, blank line *)
+                 d_chunking : bool;    (* cw.chunking *)
+                 d_close : bool;       (* w.closeAfterReply after writeHeader *)
+                 d_clen : Z;           (* w.contentLength after writeHeader *)
+                 d_drain : bool }.     (* the post-handler drain of the request body was attempted *)
+Definition write_raw_field (kv : bytes * bytes) : bytes := fst kv ++ colon_sp ++ snd kv ++ crlf.
+
+(* the keep-alive / close decision before the framing decision: (setHeader.connection, closeAfterReply) *)
+Definition wh_conn (q : rq) (h : fields) (has_cl0 close0 : bool) : bytes * bool :=
+  let close1 := if wants10ka q && negb (is_empty (get_first s_cl h)) && bytes_eqb (get_first s_conn h) s_keepalive
+                then false else close0 in
+  let '(conn1, close2) :=
+      if wants10ka q && (q_head q || has_cl0) then ((if has_key s_conn h then [] else s_keepalive), close1)
+      else if negb (at_least_11 q) || wants_close q then ([], true) else ([], close1) in
+  (conn1, close2 || bytes_eqb (get_first s_conn h) s_close).
+(* the framing decision: (header after deletions, chunking, closeAfterReply, setHeader.transferEncoding) *)
+Definition wh_frame (is_head : bool) (status : Z) (no_body_status has_cl at11 : bool) (h2 : fields) (close3 : bool)
+  : fields * bool * bool * bytes :=
+  if is_head || (status =? 304) then (h2, false, close3, [])
+  else if no_body_status then (del_key s_te h2, false, close3, [])
+  else if has_cl then (del_key s_te h2, false, close3, [])
+  else if at11 then (h2, true, close3, s_chunked)
+  else (del_key s_te h2, false, true, []).
 
 Section Writer.
 (* DetectContentType on the first body bytes; external (see RunC27: the generators keep to text bodies) *)
 Variable sniff : bytes -> bytes.
 (* time.Now() rendered by appendTime; the harness rewrites a generated Date value to this constant *)
 Variable now : bytes.
+(* the /repo fix for C28 is in force: a response to a request whose "Expect: 100-continue" was never answered
+   with "100 Continue" closes the connection (false = the code before that fix) *)
+Variable fix_expect : bool.
 
 (* req_body: (req.ContentLength <> 0, Body is an expectContinueReader, WroteContinue) *)
 Definition write_header (allowed : Z -> bool) (q : rq) (req_body : bool * bool * bool) (status : Z) (h : fields) (clen : Z)
@@ -152,39 +176,37 @@ Definition write_header (allowed : Z -> bool) (q : rq) (req_body : bool * bool *
   let is_head := q_head q in
   let set_cl := hdone && negb (status =? 304) && is_empty (get_first s_cl h) && (negb is_head || negb (is_empty p)) in
   let clen1 := if set_cl then blen p else clen in
-  let close1 := if wants10ka q && negb (is_empty (get_first s_cl h)) && bytes_eqb (get_first s_conn h) s_keepalive
-                then false else close0 in
   let has_cl0 := negb (clen1 =? -1) in
-  let '(conn1, close2) :=
-      if wants10ka q && (is_head || has_cl0) then ((if has_key s_conn h then [] else s_keepalive), close1)
-      else if negb (at_least_11 q) || wants_close q then ([], true) else ([], close1) in
-  let close3 := close2 || bytes_eqb (get_first s_conn h) s_close in
-  let '(rb_nonzero, is_expecter, wrote_continue) := req_body in
-  let drain := rb_nonzero && negb close3 && (negb is_expecter || wrote_continue) in
+  let conn1 := fst (wh_conn q h has_cl0 close0) in
+  let close3a := snd (wh_conn q h has_cl0 close0) in
+  let rb_nonzero := fst (fst req_body) in
+  let is_expecter := snd (fst req_body) in
+  let wrote_continue := snd req_body in
+  let drain := rb_nonzero && negb close3a && (negb is_expecter || wrote_continue) in
+  let close3 := close3a || (fix_expect && rb_nonzero && is_expecter && negb wrote_continue) in
   let h1 := if status =? 304 then del_key s_te (del_key s_cl (del_key s_ct h)) else h in
   let ctype := if status =? 304 then [] else if has_key s_ct h then [] else sniff p in
-  let date := if has_key s_date h1 then None else Some now in
   let te := get_first s_te h1 in
   let conflict := has_cl0 && negb (is_empty te) && negb (bytes_eqb te s_identity) in
   let h2 := if conflict then del_key s_cl h1 else h1 in
   let has_cl := has_cl0 && negb conflict in
-  let '(h3, chunking, close4, te_extra) :=
-      if is_head || (status =? 304) then (h2, false, close3, [])
-      else if (status =? 204) || negb (allowed status) then (del_key s_te h2, false, close3, [])
-      else if has_cl then (del_key s_te h2, false, close3, [])
-      else if at_least_11 q then (h2, true, close3, s_chunked)
-      else (del_key s_te h2, false, true, []) in
+  let fr := wh_frame is_head status ((status =? 204) || negb (allowed status)) has_cl (at_least_11 q) h2 close3 in
+  let h3 := fst (fst (fst fr)) in
+  let chunking := snd (fst (fst fr)) in
+  let close4 := snd (fst fr) in
+  let te_extra := snd fr in
   let h4 := if chunking then del_key s_cl h3 else h3 in
   let fix_conn := close4 && negb (has_token (get_first s_conn h4) s_close) in
   let h5 := if fix_conn then del_key s_conn h4 else h4 in
   let conn2 := if fix_conn && at_least_11 q then s_close else conn1 in
   let extra :=
-      (match date with Some d => s_date ++ colon_sp ++ d ++ crlf | None => [] end) ++
-      (if set_cl then s_cl ++ colon_sp ++ dec_of_Z (blen p) ++ crlf else []) ++
-      (if is_empty ctype then [] else s_ct ++ colon_sp ++ ctype ++ crlf) ++
-      (if is_empty conn2 then [] else s_conn ++ colon_sp ++ conn2 ++ crlf) ++
-      (if is_empty te_extra then [] else s_te ++ colon_sp ++ te_extra ++ crlf) in
-  {| d_head := status_line (q_minor q) status ++ write_subset h5 ++ extra ++ crlf;
+      (if has_key s_date h1 then [] else [(s_date, now)]) ++
+      (if set_cl then [(s_cl, dec_of_Z (blen p))] else []) ++
+      (if is_empty ctype then [] else [(s_ct, ctype)]) ++
+      (if is_empty conn2 then [] else [(s_conn, conn2)]) ++
+      (if is_empty te_extra then [] else [(s_te, te_extra)]) in
+  {| d_fields := h5; d_extra := extra;
+     d_head := status_line (q_minor q) status ++ write_subset h5 ++ concat (map write_raw_field extra) ++ crlf;
      d_chunking := chunking; d_close := close4; d_clen := clen1; d_drain := drain |}.
 
 (* ---------- response.write: which of the handler's writes are accepted ---------- *)
